@@ -6,6 +6,7 @@ import "bytes"
 
 // faultWriter: every Write may fail (free boolean per call); everything it is given is logged.
 type faultWriter struct {
+	tag    string
 	calls  int
 	log    string
 	failed bool
@@ -14,7 +15,7 @@ type faultWriter struct {
 func (w *faultWriter) Write(p []byte) (int, error) {
 	w.calls++
 	k := verifItoa(w.calls)
-	if nondetBool("werr_" + k) {
+	if nondetBool("werr_" + w.tag + k) {
 		w.failed = true
 		// a failing write may have consumed a prefix
 		return 0, &verifErr{"write failed"}
@@ -217,4 +218,43 @@ func H_C10_gostring() {
 	if !fails && !panicked {
 		verifAssert(out == specGofmt(raw), "GoString returns the formatted rendering")
 	}
+}
+
+// a failed call leaves nothing behind: the next Render of the same File delivers exactly the
+// rendered output (and a failing one still writes nothing)
+func H_C10_render_after_failure() {
+	n := nondetChoice("n", 2)
+	noFormat := nondetBool("noformat")
+	rawBuf := &bytes.Buffer{}
+	rawErr := c10File(true, n).Render(rawBuf)
+	raw := rawBuf.String()
+	expected := raw
+	renderFails := rawErr != nil
+	if !noFormat {
+		if !renderFails && !specGofmtOK(raw) {
+			renderFails = true
+		}
+		expected = specGofmt(raw)
+	}
+	f := c10File(noFormat, n)
+	w1 := &faultWriter{tag: "first_"}
+	err1 := f.Render(w1)
+	if err1 == nil {
+		// the first call succeeded: a second one repeats it (C08's subject); only failures matter here
+		return
+	}
+	w2 := &faultWriter{}
+	err2 := f.Render(w2)
+	if renderFails {
+		verifAssert(err2 != nil, "a render/format failure is returned again")
+		verifAssert(w2.calls == 0, "nothing is written when rendering or formatting fails")
+		return
+	}
+	if w2.failed {
+		verifAssert(err2 != nil, "a writer error is returned")
+		return
+	}
+	verifAssert(err2 == nil, "a Render after a failed one succeeds")
+	verifObserve("written", w2.log)
+	verifAssert(w2.log == expected, "after a failed Render the writer receives exactly the rendered output")
 }
